@@ -149,7 +149,8 @@ class LoopbackSoapClient:
     def is_closed(self):
         return self._closed
 
-    def _post(self, path, created_message, request_manipulator, validate):
+    def _prepare(self, path, created_message, request_manipulator, validate):
+        """Serialise, log, consult the network hook. Returns (wire, early_result or None, delay_seconds)."""
         if self._closed:
             self.connect()
         xml_request = created_message.serialize(request_manipulator=request_manipulator, validate=validate)
@@ -160,19 +161,32 @@ class LoopbackSoapClient:
         if verdict == 'hold':
             wire.outcome = 'held'
             net.held.append(wire)
-            return None, b''
+            return wire, (None, b''), 0
         if verdict == 'drop':
             wire.outcome = 'dropped'
-            return None, b''
+            return wire, (None, b''), 0
         if isinstance(verdict, BaseException):
             wire.outcome = 'failed:' + type(verdict).__name__
             raise verdict
+        if isinstance(verdict, tuple) and verdict[0] == 'delay':
+            return wire, None, float(verdict[1])
+        return wire, None, 0
+
+    def _complete(self, wire):
         started = time.perf_counter()
         try:
-            status, reason, response = net.deliver(wire)
+            status, reason, response = self.network.deliver(wire)
         finally:
             self.roundtrip_time = time.perf_counter() - started
         return (status, reason), response
+
+    def _post(self, path, created_message, request_manipulator, validate):
+        wire, early, delay = self._prepare(path, created_message, request_manipulator, validate)
+        if early is not None:
+            return early
+        if delay:
+            time.sleep(delay)          # a slow subscriber
+        return self._complete(wire)
 
     def _parse(self, status_reason, response):
         if not response:
@@ -190,7 +204,13 @@ class LoopbackSoapClient:
         return self._parse(status_reason, response)
 
     async def async_post_message_to(self, path, created_message, msg='', request_manipulator=None, validate=True):
-        status_reason, response = self._post(path, created_message, request_manipulator, validate)
+        wire, early, delay = self._prepare(path, created_message, request_manipulator, validate)
+        if early is not None:
+            return self._parse(*early)
+        if delay:
+            import asyncio
+            await asyncio.sleep(delay)  # a slow subscriber: other coroutines of the event loop go on meanwhile
+        status_reason, response = self._complete(wire)
         return self._parse(status_reason, response)
 
     def get_from_url(self, url, msg=''):
